@@ -298,7 +298,7 @@ func runRecordLevel(c *core.Ctx) {
 				}
 				// sequence continuity: the same record under a neighbouring sequence number must be refused
 				{
-					for _, s := range []uint64{seq + 1, seq - 1, seq + 256, seq ^ (1 << 40)} {
+					for _, s := range []uint64{seq + 1, seq - 1, seq + 255, seq - 255, seq + 256, seq - 256, seq + 510, seq ^ (1 << 40)} {
 						if s == seq {
 							continue
 						}
@@ -310,6 +310,56 @@ func runRecordLevel(c *core.Ctx) {
 				}
 				c.Nontrivial("rec", cl.String(), n, "tamper")
 			}
+
+			// ---- 2b. the sequence number across byte boundaries: the reference keeps its own uint64 counter ----
+			for _, start := range []uint64{0, 0xfe, 0xff, 0xfffe, 0xffff, 0xfffffe, 0xffffff, 0xfffffffe, 0xffffffffff, 0xfffffffffffffe} {
+				steps := 4
+				if start == 0 {
+					steps = 600 // walk from zero through two carries into the second byte
+				}
+				w, _ := zHalf(cl, keys, false, start)
+				rd, _ := zHalf(cl, keys, true, start)
+				ref, _ := newRefState(cl.Ref, cl.Version, keys.mac, keys.key, keys.iv)
+				ref.seq = start
+				for i := 0; i < steps; i++ {
+					payload := makeStream(start+uint64(i), 1+i%19)
+					rec, err := zSeal(w, cl.Version, 23, payload, rnd)
+					if err != nil {
+						break
+					}
+					c.Eval(1)
+					want := start + uint64(i)
+					ref.seq = want // explicit: the n-th record is protected under sequence number start+n
+					rp, rt, rerr := ref.open(rec)
+					if rerr != nil || rt != 23 || !bytes.Equal(rp, payload) {
+						viol(fmt.Sprintf("record-sequence-number:writer:%s:%s", versionName(cl.Version), cc),
+							fmt.Sprintf("record %d after sequence number %#x does not open under sequence number %#x (reference): err=%v; zcrypto's counter now %x", i, start, want, rerr, w.Seq()),
+							map[string]any{"start_seq": start, "record_index": i, "record": core.FullHex(rec)})
+						break
+					}
+					if w.Seq() != seqBytes(want+1) {
+						viol(fmt.Sprintf("record-sequence-number:counter:%s:%s", versionName(cl.Version), cc),
+							fmt.Sprintf("after %d records from %#x the writer's counter is %x, expected %#x", i+1, start, w.Seq(), want+1), map[string]any{"start_seq": start, "record_index": i})
+						break
+					}
+					// the reader side: a record sealed by the reference under start+i must open, and leave the counter at start+i+1
+					refW, _ := newRefState(cl.Ref, cl.Version, keys.mac, keys.key, keys.iv)
+					refW.seq = want
+					if cl.Ref.kind == kindStream || (cl.Ref.kind == kindCBC && cl.Version < vTLS11) {
+						continue // chained cipher state: the reader would need the whole history from the reference writer
+					}
+					rrec, _ := refW.seal(23, payload, sealOpts{padLen: -1})
+					zp, _, zerr := rd.Decrypt(append([]byte(nil), rrec...))
+					if zerr != nil || !bytes.Equal(zp, payload) || rd.Seq() != seqBytes(want+1) {
+						viol(fmt.Sprintf("record-sequence-number:reader:%s:%s", versionName(cl.Version), cc),
+							fmt.Sprintf("record %d after sequence number %#x sealed by the reference under %#x: zcrypto reader err=%v, counter now %x", i, start, want, zerr, rd.Seq()),
+							map[string]any{"start_seq": start, "record_index": i, "record": core.FullHex(rrec)})
+						break
+					}
+				}
+				c.Count("record_sequence_walks", 1)
+			}
+			c.Nontrivial("rec", cl.String(), 0, "sequence-walk")
 
 			// ---- 3. CBC: padding matrix ----
 			if cl.Ref.kind == kindCBC {
